@@ -85,7 +85,11 @@ func Stress(seed int64, prog Program) *RunResult {
 		}
 	}
 	if prog.Shutdown {
-		time.Sleep(time.Duration(rng.Intn(400)) * time.Microsecond)
+		if prog.SdDelayUs > 0 {
+			time.Sleep(time.Duration(prog.SdDelayUs) * time.Microsecond)
+		} else {
+			time.Sleep(time.Duration(rng.Intn(400)) * time.Microsecond)
+		}
 		sc.StartShutdown(sdDur)
 	}
 	finish(sc, tr, out, sdDur, prog)
